@@ -54,43 +54,136 @@ def run_paths_chunk(job):
         eps = P.entry_points(False) if job.get("tools") else []
         if eps:
             _warm_up(eps, top, root, spec, cwd)
-        results = []
-        for p0 in job["paths"]:
-            p = p0.replace("{SB}", cwd)
-            cls = P.classify_path(cwd, p)
-            rec = {"p": p0, "cls": cls, "val": P.run_validators(p), "eps": {}}
-            drive = P.safe_to_drive(top, cwd, p)
-            rec["driven"] = drive
-            for name, fn in eps if drive else []:
-                if name == "cli_write" and "\x00" in p:
-                    continue
-                with P.Trace() as t:
-                    try:
-                        r = fn(p)
-                        raised = None
-                    except BaseException as e:  # noqa: BLE001
-                        if isinstance(e, (KeyboardInterrupt, MemoryError)):
-                            raise
-                        r, raised = None, f"{type(e).__name__}: {str(e)[:60]}"
-                in_sb, outside, foreign = P.judge_events(t.events, root, ro)
-                snap1 = P.snapshot(top)
-                changed = sorted(k for k in set(snap0) | set(snap1) if snap0.get(k) != snap1.get(k))
-                rec["eps"][name] = {
-                    "refused": bool(raised) or P._tool_refused(r), "codes": P._codes(r) if r else [], "raise": raised,
-                    "in_sb": in_sb[:6], "outside": outside[:6], "foreign": foreign[:6],
-                    "changed": changed[:6], "out_changed": [k for k in changed if not (k == sbrel or k.startswith(sbrel + "/"))][:6],
-                }
-                if changed:
-                    os.chdir(top)
-                    P.wipe(top)
-                    os.makedirs(root)
-                    P.build_tree(root, spec)
-                    os.chdir(cwd)
-            results.append(rec)
+        def rebuild():
+            os.chdir(top)
+            P.wipe(top)
+            os.makedirs(root)
+            P.build_tree(root, spec)
+            os.chdir(cwd)
+        results = [_observe_path(p0, cwd, top, root, ro, eps, snap0, sbrel, rebuild) for p0 in job["paths"]]
         return {"root": root, "cwd": cwd, "nodes": nodes, "results": results}
     finally:
         os.chdir(old_cwd)
         shutil.rmtree(top, ignore_errors=True)
+
+
+def _observe_path(p0, cwd, top, root, ro, eps, snap0, sbrel, rebuild):
+    """One path string in the CURRENT layout: classification (independent reading), the three validators, every entry point
+    under the audit hook with before/after snapshots.  `rebuild()` restores the layout after a call that changed the tree."""
+    p = p0.replace("{SB}", cwd)
+    cls = P.classify_path(cwd, p)
+    rec = {"p": p0, "cls": cls, "val": P.run_validators(p), "eps": {}}
+    drive = P.safe_to_drive(top, cwd, p)
+    rec["driven"] = drive
+    for name, fn in eps if drive else []:
+        if name == "cli_write" and "\x00" in p:
+            continue
+        with P.Trace() as t:
+            try:
+                r = fn(p)
+                raised = None
+            except BaseException as e:  # noqa: BLE001
+                if isinstance(e, (KeyboardInterrupt, MemoryError)):
+                    raise
+                r, raised = None, f"{type(e).__name__}: {str(e)[:60]}"
+        in_sb, outside, foreign = P.judge_events(t.events, root, ro)
+        snap1 = P.snapshot(top)
+        changed = sorted(k for k in set(snap0) | set(snap1) if snap0.get(k) != snap1.get(k))
+        rec["eps"][name] = {
+            "refused": bool(raised) or P._tool_refused(r), "codes": P._codes(r) if r else [], "raise": raised,
+            "in_sb": in_sb[:6], "outside": outside[:6], "foreign": foreign[:6],
+            "changed": changed[:6], "out_changed": [k for k in changed if not (k == sbrel or k.startswith(sbrel + "/"))][:6],
+        }
+        if changed:
+            rebuild()
+    return rec
+
+
+# --------------------------------------------------------------------------------------------
+# sequences of calls in ONE process with a layout change between the calls
+# --------------------------------------------------------------------------------------------
+
+def _flip_text(root, loc, kind):
+    """link text of an override `kind` at <root>/sb/<loc> (relative texts are relative to the directory holding the link)."""
+    k = loc.count("/")
+    return {"link-out-abs": root + "/out", "link-out-rel": "../" * (k + 1) + "out", "link-in": "../" * k + "d-private",
+            "flink-out": root + "/out/secret.md", "flink-in": "../" * k + "g.oct.md", "dangling": root + "/out/missing.md"}[kind]
+
+
+def apply_overrides(root, overrides):
+    """overrides: {loc relative to sb: kind}; kinds: dir | file | absent | link-out-abs | link-out-rel | link-in | flink-out | flink-in |
+    dangling.  Whatever the base tree has at the location is replaced by an object of that kind AT THE SAME ABSOLUTE PATH."""
+    for loc, kind in overrides.items():
+        q = root + "/sb/" + loc
+        par = os.path.dirname(q)
+        if not os.path.isdir(par) or os.path.realpath(par) != par:
+            continue      # an earlier override replaced a directory above this location: nothing to realise here in this layout
+        if os.path.islink(q) or os.path.isfile(q):
+            os.unlink(q)
+        elif os.path.isdir(q):
+            shutil.rmtree(q)
+        if kind == "dir":
+            os.makedirs(q)
+            with open(q + "/f.md", "w", encoding="utf-8") as f:
+                f.write(P.OCT)
+        elif kind == "file":
+            with open(q, "w", encoding="utf-8") as f:
+                f.write(P.OCT)
+        elif kind != "absent":
+            os.symlink(_flip_text(root, loc, kind), q)
+
+
+def run_sequence_chunk(job):
+    """job = {kind, seed, seqs:[[step,...]], tag}; step = ["call", path string] | ["flip", loc, kind | "orig"].
+    Every sequence runs on its own root (same absolute paths throughout the sequence), all of them in this one process with
+    the same tool instances — what a long-running server does.  Each call is observed exactly like a path of run_paths_chunk,
+    against the layout of that moment.  Returns {results: [{seq, calls: [{step, layout, rec}], layouts: [{cwd, nodes}]}]}."""
+    P.install_hook()
+    sys.dont_write_bytecode = True
+    ro = _ro_prefixes()
+    old_cwd = os.getcwd()
+    results = []
+    try:
+        for sidx, steps in enumerate(job["seqs"]):
+            top, root = P.new_root(f"{job.get('tag', 'q')}{sidx}")
+            try:
+                spec = make_spec(job["kind"], job["seed"])
+                P.build_tree(root, spec)
+                cwd = root + "/sb"
+                os.chdir(cwd)
+                sbrel = os.path.relpath(cwd, top)
+                eps = P.entry_points(False)
+                _warm_up(eps, top, root, spec, cwd)
+                overrides = {}
+
+                def rebuild():
+                    os.chdir(top)
+                    P.wipe(top)
+                    os.makedirs(root)
+                    P.build_tree(root, spec)
+                    apply_overrides(root, overrides)
+                    os.chdir(cwd)
+                snap0 = P.snapshot(top)
+                layouts = [{"cwd": cwd, "nodes": P.model_nodes(root, P.snapshot(root))}]
+                calls = []
+                for i, st in enumerate(steps):
+                    if st[0] == "flip":
+                        overrides.pop(st[1], None)
+                        if st[2] != "orig":          # "orig": what the base tree has there
+                            overrides[st[1]] = st[2]
+                        rebuild()
+                        snap0 = P.snapshot(top)
+                        layouts.append({"cwd": cwd, "nodes": P.model_nodes(root, P.snapshot(root))})
+                    else:
+                        calls.append({"step": i, "layout": len(layouts) - 1,
+                                      "rec": _observe_path(st[1], cwd, top, root, ro, eps, snap0, sbrel, rebuild)})
+                results.append({"seq": steps, "calls": calls, "layouts": layouts})
+            finally:
+                os.chdir(old_cwd)
+                shutil.rmtree(top, ignore_errors=True)
+        return {"results": results}
+    finally:
+        os.chdir(old_cwd)
 
 
 # --------------------------------------------------------------------------------------------
@@ -344,4 +437,167 @@ def run_cli_subprocess_chunk(job):
                 P.build_tree(root, spec)
         return {"results": results}
     finally:
+        shutil.rmtree(top, ignore_errors=True)
+
+
+# --------------------------------------------------------------------------------------------
+# frozen references whose cache file was tampered with (reference = correct digest of the ORIGINAL bytes)
+# --------------------------------------------------------------------------------------------
+
+def frozen_originals():
+    """name -> pinned bytes.  Line-ending conventions, no final newline, non-ASCII, a lone CR, and a file longer than one
+    hashing chunk (8192) whose first line break sits exactly on the chunk boundary once re-encoded with CRLF."""
+    import octave_mcp
+    meta = open(os.path.join(os.path.dirname(octave_mcp.__file__), "schemas", "builtin", "meta.oct.md"), "rb").read().replace(b"\r\n", b"\n")
+    return {"schema_lf": meta, "schema_crlf": meta.replace(b"\n", b"\r\n"), "short_nonl": b"GOOD-STANDARD",
+            "short_nl": "GOOD-STANDARD é x\nSECOND LINE\n".encode("utf-8"), "lone_cr": b"A\rB\nC\r\nD\n",
+            "big": b"a" * 8191 + b"\n" + b"B::1\n" * 2000}
+
+
+def _sub_first(b, old, new):
+    i = b.find(old)
+    return b if i < 0 else b[:i] + new + b[i + len(old):]
+
+
+def _sub_last(b, old, new):
+    i = b.rfind(old)
+    return b if i < 0 else b[:i] + new + b[i + len(old):]
+
+
+def _nfd(b):
+    import unicodedata
+    try:
+        return unicodedata.normalize("NFD", b.decode("utf-8")).encode("utf-8")
+    except UnicodeDecodeError:
+        return b
+
+
+def _flip(b, i):
+    return b if not b else b[:i] + bytes([b[i] ^ 1]) + b[i + 1:]
+
+
+FROZEN_TAMPERS = {
+    "none": lambda b: b,                                                          # control: the pinned bytes themselves
+    # same text, other bytes
+    "crlf": lambda b: b.replace(b"\r\n", b"\n").replace(b"\n", b"\r\n"),
+    "lf": lambda b: b.replace(b"\r\n", b"\n"),
+    "cr": lambda b: b.replace(b"\r\n", b"\n").replace(b"\n", b"\r"),
+    "crcrlf": lambda b: b.replace(b"\n", b"\r\r\n"),
+    "first_crlf": lambda b: _sub_first(b.replace(b"\r\n", b"\n"), b"\n", b"\r\n") if b"\r\n" not in b else _sub_first(b, b"\r\n", b"\n"),
+    "last_crlf": lambda b: _sub_last(b.replace(b"\r\n", b"\n"), b"\n", b"\r\n") if b"\r\n" not in b else _sub_last(b, b"\r\n", b"\n"),
+    "nl_added": lambda b: b + b"\n",
+    "nl_removed": lambda b: b[:-1] if b.endswith(b"\n") else b,
+    "crlf_added": lambda b: b + b"\r\n",
+    "cr_added": lambda b: b + b"\r",
+    "bom": lambda b: b"\xef\xbb\xbf" + b,
+    "space_added": lambda b: b + b" ",
+    "space_eol": lambda b: _sub_first(b, b"\n", b" \n"),
+    "space_stripped": lambda b: _sub_first(b, b" \n", b"\n") if b" \n" in b else _sub_first(b, b" ", b""),
+    "tab": lambda b: _sub_first(b, b" ", b"\t"),
+    "nfd": _nfd,
+    "case": lambda b: b[:1].swapcase() + b[1:],
+    # other content
+    "flip_first": lambda b: _flip(b, 0),
+    "flip_mid": lambda b: _flip(b, len(b) // 2),
+    "flip_last": lambda b: _flip(b, len(b) - 1),
+    "trunc_1": lambda b: b[:-1],
+    "trunc_half": lambda b: b[:len(b) // 2],
+    "empty": lambda b: b"",
+    "nul_added": lambda b: b + b"\x00",
+    "doubled": lambda b: b + b,
+}
+
+
+def run_frozen_tamper_chunk(job):
+    """job = {cases: [[original name, tamper name], ...]}.  For each case a cache directory of its own holds ONE file,
+    <digest of the original>[:16].oct.md, with the tampered bytes; the reference is frozen@sha256:<digest of the ORIGINAL bytes>.
+    Routes: hydrator.resolve_hermetic_standard(ref, cache) and octave_write(schema=ref) with the cache at $HOME/.octave/standards."""
+    import asyncio
+    import hashlib
+    P.install_hook()
+    sys.dont_write_bytecode = True
+    top, root = P.new_root("ft")
+    old_cwd = os.getcwd()
+    old_home = os.environ.get("HOME")
+    from pathlib import Path
+
+    from octave_mcp.core import hydrator as HY
+    from octave_mcp.mcp.write import WriteTool
+    try:
+        P.build_tree(root, [("out", "d", None), ("out/secret.md", "f", "SECRET-1\n"), ("sb", "d", None)])
+        os.chdir(root + "/sb")
+        origs = frozen_originals()
+        prepared = []
+        for k, (oname, tname) in enumerate(job["cases"]):
+            ob = origs[oname]
+            tb = FROZEN_TAMPERS[tname](ob)
+            digest = hashlib.sha256(ob).hexdigest()
+            cache = f"{root}/sb/tc/{k}"
+            std = f"{root}/sb/home/{k}/.octave/standards"
+            for d in (cache, std):
+                os.makedirs(d)
+                with open(f"{d}/{digest[:16]}.oct.md", "wb") as f:
+                    f.write(tb)
+            prepared.append((k, oname, tname, ob, tb, digest, cache, std))
+        snap = P.snapshot(root)
+        nodes, htab, seen = [], [], set()
+        home_comps = [c for c in (root + "/sb/home").split("/") if c]
+        for comps, n in P.model_nodes(root, snap):
+            if comps[:len(home_comps)] == home_comps:
+                continue          # the model is asked about the explicit cache directories only
+            if n == "f":
+                rel = os.path.relpath("/" + "/".join(comps), root)
+                text = snap[rel][1].decode("utf-8", "replace")
+                n = {"f": text}
+                if text not in seen:
+                    seen.add(text)
+                    htab.append([text, hashlib.sha256(snap[rel][1]).hexdigest()])
+            nodes.append([comps, n])
+        tool = WriteTool()
+        try:   # lazy imports outside the traces
+            asyncio.run(tool.execute(target_path=f"{root}/sb/warm.oct.md", content=P.OCT, schema="META", debug_grammar=True))
+        except Exception:  # noqa: BLE001
+            pass
+        results = []
+        for (k, oname, tname, ob, tb, digest, cache, std) in prepared:
+            ref = "frozen@sha256:" + digest
+            with P.Trace() as t:
+                try:
+                    q = HY.resolve_hermetic_standard(ref, Path(cache))
+                    res = ["ok", str(q)]
+                except HY.VocabularyError as e:
+                    m = str(e)
+                    res = ["mismatch" if "Hash mismatch" in m else "notFound" if "not found" in m else "invalid"]
+                except Exception as e:  # noqa: BLE001
+                    res = ["raise", type(e).__name__]
+            byts = None
+            if res[0] == "ok":
+                try:
+                    with open(res[1], "rb") as f:
+                        byts = hashlib.sha256(f.read()).hexdigest()
+                except Exception:  # noqa: BLE001
+                    byts = "unreadable"
+            # the MCP tool: the cache is $HOME/.octave/standards
+            os.environ["HOME"] = f"{root}/sb/home/{k}"
+            try:
+                r = asyncio.run(tool.execute(target_path=f"{root}/sb/w{k}.oct.md", content=P.OCT, schema=ref, debug_grammar=True))
+                tool_view = {"status": r.get("status"), "validation_status": r.get("validation_status"), "schema_name": r.get("schema_name"),
+                             "loaded": bool("debug_info" in r or r.get("schema_name"))}
+            except Exception as e:  # noqa: BLE001
+                tool_view = {"status": "raise:" + type(e).__name__, "loaded": False}
+            finally:
+                if old_home is None:
+                    os.environ.pop("HOME", None)
+                else:
+                    os.environ["HOME"] = old_home
+            results.append({"original": oname, "tamper": tname, "same_bytes": tb == ob, "ref": ref, "cache": cache, "digest": digest,
+                            "file_sha": hashlib.sha256(tb).hexdigest(), "res": res, "sha": byts, "tool": tool_view,
+                            "open": [[kk, p, rp] for (kk, p, rp) in t.events]})
+        return {"root": root, "nodes": nodes, "H": htab, "results": results}
+    finally:
+        if old_home is None:
+            os.environ.pop("HOME", None)
+        else:
+            os.environ["HOME"] = old_home
+        os.chdir(old_cwd)
         shutil.rmtree(top, ignore_errors=True)
